@@ -10,7 +10,7 @@ from . import flwgen as G
 
 
 def run(pid, tier, seed, *, mc, gen, rand_fn, mon, assumptions, rule, level="model_checking",
-        regress=(), extra_facts=None, mon_env=None, post_scen=None, sub="flw", cap=None):
+        regress=(), extra_facts=None, mon_env=None, post_scen=None, sub="flw", cap=None, shard_env=None):
     """mc: list of (module, cfg, workers, timeout) model-checking runs whose invariants must hold.
     gen: list of (module, cfg, extra_cfg, tag) scenario-generating TLC runs (REPLAY lines).
     rand_fn(rng, tier, next_sc) -> list of scenarios.
@@ -74,7 +74,7 @@ def run(pid, tier, seed, *, mc, gen, rand_fn, mon, assumptions, rule, level="mod
                         scens.append(s)
                         nreg += 1
         # 3. execute on the real code, 4. judge with the TLA+ monitor
-        res = C.run_sharded(pid, mon, scens, wd, sub=sub, mon_env=mon_env)
+        res = C.run_sharded(pid, mon, scens, wd, sub=sub, mon_env=mon_env, shard_env=shard_env)
         C.log(f"[{pid}] executed {res['scenarios']} scenarios / {res['events']} events on the real code "
               f"({n_model} from TLC, {len(rnd)} random, {nreg} regression); judged by {mon}.tla in {res['wall_s']}s; "
               f"{len(res['bads'])} predicate failures; counters {res['counts']}")
